@@ -109,6 +109,9 @@ struct Plan {
     direct: Vec<bool>,
     /// Per AsyncFd (regular ones only): the kernel does not cancel requests on this descriptor.
     hard: Vec<bool>,
+    /// Per AsyncFd (regular ones only): the kernel refuses requests on this descriptor while
+    /// preparing them (EBADF, posted when the submission is consumed; never in flight).
+    rej: Vec<bool>,
     /// (fd the future borrows, or None for one that owns a SubmissionQueue; kind; starting state)
     ops: Vec<(Option<usize>, Kind, Ist)>,
     pools: usize,
@@ -127,6 +130,10 @@ impl Plan {
     /// The kernel does not cancel the request of operation `o`.
     fn survives(&self, o: usize) -> bool {
         self.ops[o].0.is_some_and(|h| self.hard[h])
+    }
+    /// The kernel refuses the request of operation `o` when it consumes the submission.
+    fn refused(&self, o: usize) -> bool {
+        self.ops[o].0.is_some_and(|h| self.rej[h])
     }
 }
 
@@ -174,7 +181,7 @@ fn coq_nats(xs: impl Iterator<Item = usize>) -> String {
 
 fn coq_plan(p: &Plan, lens: (usize, usize, usize)) -> String {
     let mut s = format!(
-        "{{| t_fixed := {}; t_pop := {{| pp_d := {{| d_sqn := {}%nat; d_cqn := {}%nat; d_len_sq := {}%N; d_len_sqes := {}%N; d_len_cq := {}%N; d_two := {}; d_surv := {} |}}; pp_clones := {}%nat; pp_fds := {}%nat; pp_ops := [",
+        "{{| t_fixed := {}; t_pop := {{| pp_d := {{| d_sqn := {}%nat; d_cqn := {}%nat; d_len_sq := {}%N; d_len_sqes := {}%N; d_len_cq := {}%N; d_two := {}; d_surv := {}; d_rej := {} |}}; pp_clones := {}%nat; pp_fds := {}%nat; pp_ops := [",
         fixed_model(),
         p.sqn,
         p.cqn,
@@ -183,6 +190,7 @@ fn coq_plan(p: &Plan, lens: (usize, usize, usize)) -> String {
         lens.2,
         coq_nats((0..p.ops.len()).filter(|o| p.two_step(*o))),
         coq_nats((0..p.ops.len()).filter(|o| p.survives(*o))),
+        coq_nats((0..p.ops.len()).filter(|o| p.refused(*o))),
         p.clones,
         p.fds
     );
@@ -233,8 +241,8 @@ fn coq_plan(p: &Plan, lens: (usize, usize, usize)) -> String {
 
 fn json_plan(p: &Plan, kernel: &str) -> String {
     let mut s = format!(
-        "{{\"kernel\":\"{kernel}\",\"sq_entries\":{},\"cq_entries\":{},\"sq_clones\":{},\"fds\":{},\"direct\":{:?},\"not_cancelable\":{:?},\"ops\":[",
-        p.sqn, p.cqn, p.clones, p.fds, p.direct, p.hard
+        "{{\"kernel\":\"{kernel}\",\"sq_entries\":{},\"cq_entries\":{},\"sq_clones\":{},\"fds\":{},\"direct\":{:?},\"not_cancelable\":{:?},\"refused_at_submission\":{:?},\"ops\":[",
+        p.sqn, p.cqn, p.clones, p.fds, p.direct, p.hard, p.rej
     );
     for (i, (on, k, st)) in p.ops.iter().enumerate() {
         if i > 0 {
@@ -387,7 +395,32 @@ fn gen_plan(r: &mut Rng) -> Plan {
     }
     let direct: Vec<bool> = (0..fds).map(|_| r.chance(1, 3)).collect();
     let hard: Vec<bool> = (0..fds).map(|h| hard_on && !direct[h] && r.chance(1, 2)).collect();
-    let mut plan = Plan { sqn, cqn, clones, fds, direct, hard, ops, pools, bufs, events: Vec::new() };
+    // A third sort (1 case in 5): descriptors on which the kernel refuses every request while
+    // preparing it. Such an operation is never in flight: it starts out unpolled or queued, and
+    // its only completion (the error) is posted when the submission is consumed.
+    let rej_on = r.chance(1, 5);
+    let rej: Vec<bool> = (0..fds).map(|h| rej_on && !direct[h] && !hard[h] && r.chance(2, 3)).collect();
+    let mut queued_now = ops.iter().filter(|o| o.2 == Ist::Queued).count();
+    for o in ops.iter_mut() {
+        if o.0.is_some_and(|h| rej[h]) && !matches!(o.2, Ist::NotStarted | Ist::Queued) {
+            if queued_now < sqn as usize && r.chance(3, 4) {
+                o.2 = Ist::Queued;
+                queued_now += 1;
+            } else {
+                o.2 = Ist::NotStarted;
+            }
+        }
+    }
+    // Half of those cases: a refused submission queued in front of an ordinary one (the kernel must
+    // go on consuming behind the refusal: IORING_SETUP_SUBMIT_ALL).
+    if let Some(h) = rej.iter().position(|x| *x) {
+        if queued_now + 2 <= sqn as usize && r.chance(1, 2) {
+            ops.insert(0, (Some(h), Kind::Read, Ist::Queued));
+            let on = (0..fds).find(|g| !rej[*g] && !hard[*g]);
+            ops.push((on, if on.is_some() { Kind::Read } else { Kind::Socket }, Ist::Queued));
+        }
+    }
+    let mut plan = Plan { sqn, cqn, clones, fds, direct, hard, rej, ops, pools, bufs, events: Vec::new() };
     let ring_bias = match r.below(4) {
         0 => 0, // ring first
         1 => 1, // ring (nearly) last
@@ -421,6 +454,7 @@ fn fixed_plan(perm: usize) -> Option<Plan> {
         fds: 1,
         direct: vec![false],
         hard: vec![false],
+        rej: vec![false],
         ops: vec![(Some(0), Kind::Read, Ist::Inflight)],
         pools: 1,
         bufs: vec![],
@@ -487,6 +521,7 @@ fn fixed_plan2(index: usize) -> Plan {
         fds: 2,
         direct: vec![false, false],
         hard: vec![false, true],
+        rej: vec![false, false],
         ops: vec![(Some(0), Kind::SendZc, Ist::Inflight), (Some(1), Kind::Read, Ist::Inflight)],
         pools: 0,
         bufs: vec![],
@@ -699,6 +734,10 @@ fn build_world(p: &Plan, r: &mut Rng) -> World {
             if p.hard[h] {
                 assert!(!p.direct[h]);
                 s.cancel_policy.push((fake_fd(h), false));
+            }
+            if p.rej[h] {
+                assert!(!p.direct[h] && !p.hard[h]);
+                s.reject_policy.push((fake_fd(h), libc::EBADF));
             }
         }
         for e in &s.log {
@@ -1428,6 +1467,14 @@ fn sim_case(p: &Plan, r: &mut Rng, silent: &Arc<Mutex<Option<String>>>) -> Case 
         if p.survives(o) {
             tags.push(format!("surv:{:?}", st));
         }
+        if p.refused(o) {
+            tags.push(format!("refused-at-submission:{:?}", st));
+            let ring_at = p.events.iter().position(|e| *e == Event::Drop(Obj::Ring));
+            let op_at = p.events.iter().position(|e| *e == Event::Drop(Obj::Op(o)));
+            if *st == Ist::Queued && p.ops.iter().enumerate().any(|(j, x)| j > o && x.2 == Ist::Queued && !p.refused(j)) && ring_at < op_at {
+                tags.push("refused-in-front-of-a-queued-operation-at-ring-drop".into());
+            }
+        }
     }
     if kcomplete_after_ring {
         tags.push("kcomplete-after-ring".into());
@@ -1485,7 +1532,7 @@ fn real_case(r: &mut Rng, heavy: bool) -> Case {
     let n_ops = if heavy { 5 + r.below(3) as usize } else { r.below(4) as usize };
     let n_pools = r.below(2) as usize;
     let clones = r.below(3) as usize;
-    let mut plan = Plan { sqn, cqn: 2 * sqn, clones, fds: n_fds, direct: vec![false; n_fds], hard: vec![false; n_fds], ops: Vec::new(), pools: n_pools, bufs: Vec::new(), events: Vec::new() };
+    let mut plan = Plan { sqn, cqn: 2 * sqn, clones, fds: n_fds, direct: vec![false; n_fds], hard: vec![false; n_fds], rej: vec![false; n_fds], ops: Vec::new(), pools: n_pools, bufs: Vec::new(), events: Vec::new() };
     for _ in 0..n_ops {
         let st = if heavy { Ist::Inflight } else { *r.pick(&[Ist::NotStarted, Ist::Queued, Ist::Inflight, Ist::Inflight]) };
         plan.ops.push((Some(r.below(n_fds as u64) as usize), Kind::Read, st));
